@@ -31,12 +31,18 @@ RULE = (
     "handled after the macrostep that raised them; (4) at the final quiescent point no `always` transition is enabled "
     "(unless the run hit maxIterations); (5) transitions are serial: the `from` snapshot each on_transition hook reports "
     "equals the `to` snapshot of the previous one, from start() on. Slow actions also sit in `always`, entry and exit "
-    "lists so that the initial macrostep itself suspends. Non-trivial = >=2 producers and >=1 send that landed while a macrostep was in "
+    "lists so that the initial macrostep itself suspends. Campaign `preempt` (sync): the same cases with producers that "
+    "collide in time and 1-5 generated line-level preemption points inside send/send_events/_process_event_queue "
+    "(sys.settrace hands the baton over before the k-th line executes); plus an exhaustive sweep of every single "
+    "preemption point (and nearby pairs) over five two-thread micro-scenarios (two senders, sender vs after-timer thread, "
+    "batch vs sender, sender vs delayed-send thread, sender vs timer-driven transitions); extra law: when every thread is "
+    "idle no accepted event is left sitting in the queue. Non-trivial = >=2 producers and >=1 send that landed while a macrostep was in "
     "flight (inside a slow action) or a raise during start(); distinct = distinct (machine, schedule)."
 )
 ASSUMPTIONS = [
-    "the sync engine is explored at blocking calls (Event.wait / sleep / Thread.start / thread exit) only; bytecode-level "
-    "preemption (e.g. the check-then-act window at the end of _process_event_queue) is not reached by this scheduler",
+    "the sync engine is explored at blocking calls (Event.wait / sleep / Thread.start / thread exit) and, in campaign "
+    "`preempt`, at generated line boundaries inside send / send_events / _process_event_queue (sys.settrace); preemption "
+    "inside other functions or between bytecodes of one line is not explored",
     "machines never reach a terminal status, so every send is 'accepted while running'",
 ]
 logging.disable(logging.CRITICAL)
@@ -48,11 +54,11 @@ BASE["raise"] = True
 
 def plan(tier):
     q = tier == "quick"
-    return [{"name": "main", "examples": 2000 if q else 40000}]
+    return [{"name": "main", "examples": 1500 if q else 40000}, {"name": "preempt", "examples": 700 if q else 30000}]
 
 
 @st.composite
-def _case(draw):
+def _case(draw, preempt=False):
     prof = gen.profile(**BASE)
     spec = draw(gen.machine_specs(prof))
     d = D(draw)
@@ -77,12 +83,22 @@ def _case(draw):
         for i in range(d.int(1, 5)):
             evs.append([d.pick([0, 0, 1, 5, 10, 20, 35]), d.pick(gen.EVENTS), "batch" if d.chance(12) else "send"])
         producers.append(evs)
-    return {"spec": spec, "producers": producers, "engine": draw(st.sampled_from(["sync", "async"])),
+    case = {"spec": spec, "producers": producers, "engine": draw(st.sampled_from(["sync", "async"])),
             "choices": draw(st.lists(st.integers(0, 5), max_size=60)), "tail": d.pick([60, 200])}
+    if preempt:
+        # sync engine, producers that collide in time, and 1-5 line-level preemption points inside
+        # send / send_events / _process_event_queue (ordinal of the line event, across all threads)
+        case["engine"] = "sync"
+        for evs in producers:
+            for e in evs:
+                if d.chance(60):
+                    e[0] = 0
+        case["preempt"] = sorted(set(draw(st.lists(st.integers(1, 160), min_size=1, max_size=5))))
+    return case
 
 
 def strategy(tier, campaign):
-    return _case()
+    return _case(preempt=(campaign == "preempt"))
 
 
 def _seq(p, i):
@@ -155,7 +171,12 @@ def run_sync(case, rec_out):
     sched = vthreads.Sched(chooser=lambda names: next(it_choices, 0))
     thr, tim = vthreads.install(sched)
     it = None
+    un_preempt = None
     try:
+        if case.get("preempt"):
+            codes = {SyncInterpreter.send.__code__, SyncInterpreter.send_events.__code__,
+                     SyncInterpreter._process_event_queue.__code__}
+            un_preempt, hits, _cnt = vthreads.install_line_preemption(sched, case["preempt"], codes)
         rec = Recorder(budget=12000, clock=lambda: sched.now)
         rec_out.append(rec)
         cfg, logic = build(spec, rec, sleeper=sched.sleep)
@@ -207,12 +228,21 @@ def run_sync(case, rec_out):
             sched.settle()
         if rec.blown:
             raise StepBudgetExceeded("blown")
-        if it._is_processing or it._event_queue:
+        if it._is_processing:
             raise Saturated()
+        if it._event_queue:
+            # nobody is processing, every thread is idle, and accepted events are still sitting
+            # in the queue: they will not be handled until some later send() happens to drain them
+            errors.append("STRANDED:" + ",".join(str(getattr(e, "type", "?")) for e in list(it._event_queue)[:4]))
+        if un_preempt is not None:
+            rec.preempt_hits = list(hits)
+            rec.line_events = _cnt[0]
         cfgset = frozenset(n.id for n in it._active_state_nodes)
         status = it.status
         return sent, (cfgset, status), errors
     finally:
+        if un_preempt is not None:
+            un_preempt()
         try:
             if it is not None:
                 rec_out[0].budget = 10 ** 9
@@ -250,6 +280,13 @@ def check_case(case) -> CaseResult:
         return res
     log = rec.log
     res.sample = {"engine": engine, "producers": case["producers"], "choices": case["choices"][:10], "n_events_dequeued": sum(1 for e in log if e[0] == "recv")}
+    stranded = [x for x in errors if x.startswith("STRANDED:")]
+    errors = [x for x in errors if not x.startswith("STRANDED:")]
+    if stranded:
+        hits = getattr(rec, "preempt_hits", [])
+        res.violate(f"{engine}|event-stranded-in-idle-queue", {"engine": engine, "queue": stranded[0][9:], "preempted_at": [list(h) for h in hits][:6]})
+    if getattr(rec, "preempt_hits", None):
+        res.classes.append("preempted:%d" % min(3, len(rec.preempt_hits)))
     if errors:
         res.violate(f"{engine}|send-raised-in-producer|{errors[0].split(':')[0]}", {"errors": errors[:3]})
     if status != "running":
@@ -276,7 +313,9 @@ def check_case(case) -> CaseResult:
         lost = sorted(set(want) - set(got))
         dup = sorted({x for x in got if got.count(x) > 1})
         extra = sorted(set(got) - set(want))
-        if lost and not cut and len([e for e in log if e[0] == "recv"]) < maxit:
+        if lost and stranded:
+            pass  # reported above as stranded (accepted, never dequeued, still in the queue)
+        elif lost and not cut and len([e for e in log if e[0] == "recv"]) < maxit:
             res.violate(f"{engine}|event-lost", {"engine": engine, "lost": lost[:6], "sent": len(want), "dequeued": len(got)})
         elif lost:
             res.inconclusive = "cut-or-bound"
@@ -357,3 +396,90 @@ def check_case(case) -> CaseResult:
             uniq.append((t, d_))
     res.violations = uniq
     return res
+
+
+# ----------------------------------------------------------------------------- exhaustive preemption sweep (sync)
+def _micro_templates():
+    """Small fixed scenarios in which two threads meet inside send()/_process_event_queue()."""
+    def mk(states, producers, extra=None):
+        spec = {"id": "m", "root": {"key": "m", "kind": "compound", "initial": states[0]["key"], "children": states},
+                "context": {"n": 0}, "maxIterations": 30, "tables": {}, "services": {}, "impls": {"slow": {"k": "slow", "ms": 5}}}
+        spec.update(extra or {})
+        from ..render import finalize
+
+        finalize(spec)
+        return {"spec": spec, "producers": producers, "engine": "sync", "tail": 60}
+
+    ping = lambda *evs: [[e, [{"target": None, "actions": []}]] for e in evs]  # noqa: E731
+    out = {}
+    out["two-senders"] = mk([{"key": "a", "kind": "atomic", "on": ping("A", "B")}], [[[0, "A", "send"]], [[0, "B", "send"]]])
+    out["sender-vs-after-timer"] = mk([{"key": "a", "kind": "atomic", "on": ping("A"), "after": [[10, [{"target": None, "actions": []}]]]}],
+                                      [[[10, "A", "send"]]])
+    out["batch-vs-sender"] = mk([{"key": "a", "kind": "atomic", "on": ping("A", "B", "C")}],
+                                [[[0, "A", "batch"], [0, "B", "send"]], [[0, "C", "send"]]])
+    out["sender-vs-delayed-raise"] = mk([{"key": "a", "kind": "atomic", "on": [
+        ["A", [{"target": None, "actions": [{"k": "raise", "event": "R1", "delay": 10}]}]], ["B", [{"target": None, "actions": []}]],
+        ["R1", [{"target": None, "actions": []}]]]}], [[[0, "A", "send"], [10, "B", "send"]]])
+    out["sender-vs-transition-timer"] = mk([
+        {"key": "a", "kind": "atomic", "on": [["A", [{"target": ["b"], "actions": []}]]], "after": [[10, [{"target": ["b"], "actions": []}]]]},
+        {"key": "b", "kind": "atomic", "on": [["A", [{"target": ["a"], "actions": []}]]], "after": [[10, [{"target": ["a"], "actions": []}]]]}],
+        [[[10, "A", "send"], [10, "A", "send"]], [[20, "A", "send"]]])
+    return out
+
+
+def _sweep_worker(args):
+    name, plans, choices = args
+    tpl = _micro_templates()[name]
+    n = 0
+    viol = []
+    for plan_ in plans:
+        for ch in choices:
+            case = dict(tpl, preempt=list(plan_), choices=list(ch))
+            r = check_case(case)
+            n += 1
+            for tag, detail in r.violations:
+                if len(viol) < 5:
+                    viol.append({"tag": tag + "|" + name, "detail": detail, "case": case})
+    return n, viol
+
+
+def extra_run(tier, seed, jobs):
+    import multiprocessing as mp
+    import time as _time
+
+    t0 = _time.time()
+    tpls = _micro_templates()
+    work = []
+    sizes = {}
+    chooser_variants = [[0] * 8, [1] * 8, [0, 1] * 4, [1, 0] * 4]
+    for name, tpl in tpls.items():
+        rec_out = []
+        try:
+            run_sync(dict(tpl, preempt=[10 ** 9], choices=[]), rec_out)
+            nlines = getattr(rec_out[0], "line_events", 0)
+        except BaseException:  # noqa
+            nlines = 0
+        sizes[name] = nlines
+        singles = [(k,) for k in range(1, nlines + 1)]
+        if tier == "quick":
+            pairs = [(a, b) for a in range(1, nlines + 1) for b in range(a + 1, min(nlines, a + 12) + 1)][::3] if nlines <= 150 else []
+        else:
+            pairs = [(a, b) for a in range(1, nlines + 1) for b in range(a + 1, min(nlines, a + 40) + 1)]
+        for plans, chs in ((singles, chooser_variants), (pairs, chooser_variants[:2] if tier == "quick" else chooser_variants)):
+            chunk = max(1, len(plans) // (jobs * 2))
+            for i in range(0, len(plans), chunk):
+                work.append((name, plans[i:i + chunk], chs))
+    ctx = mp.get_context("fork")
+    with ctx.Pool(jobs, maxtasksperchild=4) as pool:
+        parts = pool.map(_sweep_worker, work)
+    n = sum(p[0] for p in parts)
+    seen = set()
+    viol = []
+    for p in parts:
+        for v in p[1]:
+            if v["tag"] not in seen:
+                seen.add(v["tag"])
+                viol.append(v)
+    return {"evaluations": n, "nontrivial_count": n, "violations": viol, "samples": [{"template": k, "line_events": v} for k, v in sizes.items()][:3],
+            "coverage": {"preemption_sweep": {"templates": sizes, "plans": "every single line boundary x 4 chooser variants; pairs " + ("within 12 lines, every 3rd, templates <=150 lines, 2 chooser variants" if tier == "quick" else "within 40 lines, 4 chooser variants"),
+                                              "chooser_variants": len(chooser_variants), "runs": n, "wall_s": round(_time.time() - t0, 1)}}}
